@@ -104,8 +104,10 @@ def judge(kind, cards, style, audit_type, thr, feats=None):
     if len(d) and not out:
         asn.overstatement_assorter = orig
         # the margin may have been set by other means than the CVR route (from tallies, by hand), which do not touch the
-        # test: put the test's bound back to its construction-time value so that set_p_values itself has to install u
-        asn.test.u = ua
+        # test, and the same objects may have served an audit of the other type before: leave the *other* type's bound in
+        # the test (construction-time value for comparison, the comparison bound for polling) so that set_p_values itself
+        # has to install u
+        asn.test.u = 2 / (2 - v / ua) if polling else ua
         try:
             with contextlib.redirect_stdout(io.StringIO()), warnings.catch_warnings():
                 warnings.simplefilter("ignore")
